@@ -333,8 +333,8 @@ func (r *fileRewriter) visit(n ast.Node) bool {
 	case *ast.GoStmt:
 		call := x.Call
 		sig, _ := r.info.TypeOf(call.Fun).Underlying().(*types.Signature)
-		if sig == nil || sig.Results().Len() != 0 || sig.Variadic() || len(call.Args) > 4 || call.Ellipsis.IsValid() {
-			r.unsupported(x, "go statement with results, variadic callee or more than 4 arguments")
+		if sig == nil || sig.Results().Len() != 0 || sig.Variadic() || len(call.Args) > 6 || call.Ellipsis.IsValid() {
+			r.unsupported(x, "go statement with results, variadic callee or more than 6 arguments")
 			return true
 		}
 		n := r.site("go", x.Pos())
@@ -479,8 +479,9 @@ func main() {
 	cfg := &packages.Config{
 		Mode: packages.NeedName | packages.NeedFiles | packages.NeedCompiledGoFiles | packages.NeedSyntax |
 			packages.NeedTypes | packages.NeedTypesInfo | packages.NeedImports | packages.NeedDeps,
-		Dir:   abs,
-		Tests: false,
+		Dir:        abs,
+		Tests:      false,
+		BuildFlags: []string{"-tags=verif"},
 	}
 	pkgs, err := packages.Load(cfg, flag.Args()...)
 	if err != nil {
